@@ -17,6 +17,7 @@ type genState struct {
 	snap     Snap // newest marker with index <= commit
 	released uint64
 	seed     int64
+	pending  *Snap // marker ahead of the log whose hard state has not been seen yet (deriveGen only)
 }
 
 func (g *genState) last() uint64 {
@@ -60,11 +61,16 @@ func (g *genState) apply(r *Rec) {
 	case recSnap:
 		s := Snap{r.Snap.Index, r.Snap.Term}
 		if s.Index > g.last() {
-			g.ents, g.base = nil, s
+			// a snapshot ahead of the log takes effect with the hard state that commits it
+			g.pending = &s
 		}
 		if s.Term > g.term {
 			g.term = s.Term
 		}
+	}
+	if g.pending != nil && g.commit >= g.pending.Index && g.pending.Index > g.last() {
+		g.ents, g.base = nil, *g.pending
+		g.pending = nil
 	}
 }
 
